@@ -1543,6 +1543,11 @@ def check_imports(template_path, repo, infos, path_map, record=False):
             if not used:
                 continue
             newp = n0.get(nm)
+            if r0.get(nm) is None and newp is not None and re.match(r'^(crate|super|self)::', newp):
+                # a name that was not bound before, now imported from the crate ITSELF: the mirror's item of that name (if it
+                # has one; otherwise the unit does not compile, exit 2) mirrors that very item -- nothing to follow
+                followed.append('%s: `%s` newly imported from %s' % (f, nm, newp))
+                continue
             if newp is not None and newp in path_map:
                 followed.append('%s: `%s` now bound to %s (followed as %s)' % (f, nm, newp, path_map[newp]))
                 continue
